@@ -149,4 +149,153 @@ theorem stepX_hold_go {cfg : Cfg} {n : Net} {v : View} (h : RInv cfg n v) (hok :
     · rw [adr_x, adr_y v h.x2]
     · unfold View.nextTx View.sendX; rfl
 
+/-- Phase `gap`, the requester is polled before its slot time has expired: a no-op. -/
+theorem stepX_gap_wait {cfg : Cfg} {n : Net} {v : View} (h : RInv cfg n v) (hok : cfg.Ok) (g : Nat)
+    (hph : v.ph = .gap g) (now : Int) (e : EvOk cfg n v v.x now)
+    (hw : now ≤ v.tr.start + (cfg.b66 : Nat) + (cfg.slot : Nat)) : StepOut cfg n v v.x now := by
+  have hP := h.ph
+  unfold PhaseOk at hP
+  rw [hph] at hP
+  obtain ⟨hs1, hb, hgy, hg, hst, hlx, hq, hsx, hY⟩ := hP
+  have hown := e.own
+  have htl := e.tl
+  have hd := h.bus.deliver_own hok.rate v.x h.x2 now hs1
+  have hlen : v.tr.bytes.length = 6 := by rw [hb]; exact statusRequestBytes_length _ _
+  have hc5 := cfg.ce5 hok.rate
+  have hpoll : v.sx.s.poll [] now (n.bus.transmitting v.x now) [] = .ok { s := v.sx.s, apps := [], rx := [] } := by
+    by_cases hle : now ≤ v.tr.start + (cfg.b66 : Nat)
+    · exact poll_ongoing v.sx.s [] now _ [] h.okx.son (by rw [hst]; simp) (by rw [hst]; simp) _ hlx hle
+    · have hphy : n.bus.transmitting v.x now = false := by
+        rw [Bus.transmitting_last n.bus v.x now v.old v.tr h.bus.txs hs1, h.bus.txEnd_eq, hlen]
+        simp only [decide_eq_false_iff_not]
+        show ¬ now < _ + ((cfg.ce 5 : Nat) : Int)
+        omega
+      rw [hphy]
+      exact await_poll_waits v.sx.s now _ g h.okx.inv h.okx.son hst hlx (by omega) (by rw [h.okx.slot]; omega)
+  obtain ⟨n', hn', hinv'⟩ := rinv_quiet_x h now e.tl (Int.le_of_lt e.own) [] { s := v.sx.s, apps := [], rx := [] } hd
+    (by rw [h.rxx]; exact hpoll) rfl rfl rfl h.okx.son h.pbx rfl
+    (by
+      unfold PhaseOk View.setX upSt
+      simp only [hph]
+      exact ⟨hs1, hb, hgy, hg, hst, hlx, by omega, hw, hY⟩)
+  exact ⟨n', _, [], _, hn', hinv', rfl, fun j _ => rfl, .inl ⟨rfl, rfl, rfl⟩⟩
+
+/-- Phase `pass`, the supervising sender is polled: a no-op (the successor has not even seen the complete
+token yet, so the slot time cannot have expired). -/
+theorem stepX_pass {cfg : Cfg} {n : Net} {v : View} (h : RInv cfg n v) (hok : cfg.Ok)
+    (hph : v.ph = .pass) (now : Int) (e : EvOk cfg n v v.x now) : StepOut cfg n v v.x now := by
+  have hP := h.ph
+  unfold PhaseOk at hP
+  rw [hph] at hP
+  obtain ⟨hs1, hb, hst, hlx, hq, hY⟩ := hP
+  have hown := e.own
+  have htl := e.tl
+  have hgy := e.gapY
+  have hd := h.bus.deliver_own hok.rate v.x h.x2 now hs1
+  have hlen : v.tr.bytes.length = 3 := by rw [hb]; rfl
+  have hc2 := cfg.ce2 hok.rate
+  have hmar := hok.margin
+  have hseenY : n.bus.seen.getD (oth v.x) 0 < v.tr.start + ((cfg.ce 2 : Nat) : Int) := by
+    have := vis_lt_full _ (ce_monoI cfg) v.tr.bytes.length v.tr.start (n.bus.seen.getD (oth v.x) 0)
+      (by rw [hlen]; decide) hY.2.2.1
+    rw [hlen] at this
+    exact this
+  have hpoll : ∃ c', v.sx.s.poll [] now (n.bus.transmitting v.x now) [] = .ok c' ∧ c'.tx = none ∧ c'.s = v.sx.s ∧
+      c'.apps = [] ∧ c'.rx = [] := by
+    by_cases hle : now ≤ v.tr.start + (cfg.b33 : Nat)
+    · exact ⟨_, poll_ongoing v.sx.s [] now _ [] h.okx.son (by rw [hst]; simp) (by rw [hst]; simp) _ hlx hle,
+        rfl, rfl, rfl, rfl⟩
+    · have hphy : n.bus.transmitting v.x now = false := by
+        rw [Bus.transmitting_last n.bus v.x now v.old v.tr h.bus.txs hs1, h.bus.txEnd_eq, hlen]
+        simp only [decide_eq_false_iff_not]
+        show ¬ now < _ + ((cfg.ce 2 : Nat) : Int)
+        omega
+      rw [hphy]
+      obtain ⟨c', hc', htx', hs', ha', hr'⟩ := check_poll_partial v.sx.s now [] .first _ h.okx.inv h.okx.son hst hlx (by omega)
+        (.inr (by rw [h.okx.slot]; omega)) receiveAll_nil
+      simp only [List.length_nil, checkBus_nil] at hs'
+      exact ⟨c', hc', htx', hs', ha', hr'⟩
+  obtain ⟨c', hc', htx', hs', ha', hr'⟩ := hpoll
+  obtain ⟨n', hn', hinv'⟩ := rinv_quiet_x h now e.tl (Int.le_of_lt e.own) [] c' hd
+    (by rw [h.rxx]; exact hc') htx' (by rw [hs']) (by rw [hs']) (by rw [hs']; exact h.okx.son) (by rw [hs']; exact h.pbx) hr'
+    (by
+      unfold PhaseOk View.setX upSt
+      simp only [hph, hs']
+      exact ⟨hs1, hb, hst, hlx, by omega, hY⟩)
+  exact ⟨n', _, [], _, hn', hinv', rfl, fun j _ => rfl, .inl ⟨htx', rfl, rfl⟩⟩
+
+/-- Phase `gap`, the requester's first poll after its slot time has expired: the other station has heard
+the request completely by then; the token goes to it. -/
+theorem stepX_gap_timeout {cfg : Cfg} {n : Net} {v : View} (h : RInv cfg n v) (hok : cfg.Ok) (g : Nat)
+    (hph : v.ph = .gap g) (now : Int) (e : EvOk cfg n v v.x now)
+    (hex : v.tr.start + (cfg.b66 : Nat) + (cfg.slot : Nat) < now) : StepOut cfg n v v.x now := by
+  have hP := h.ph
+  unfold PhaseOk at hP
+  rw [hph] at hP
+  obtain ⟨hs1, hb, hgy, hg, hst, hlx, hq, hsx, hY⟩ := hP
+  have hown := e.own
+  have htl := e.tl
+  have hgapy := e.gapY
+  have hgapx := e.gapX
+  have hmar := hok.margin
+  have hd := h.bus.deliver_own hok.rate v.x h.x2 now hs1
+  have hlen : v.tr.bytes.length = 6 := by rw [hb]; exact statusRequestBytes_length _ _
+  have hc5 := cfg.ce5 hok.rate
+  have hc2 := cfg.ce2 hok.rate
+  have hc0 := cfg.ce_pos hok.rate 0
+  have hphy : n.bus.transmitting v.x now = false := by
+    rw [Bus.transmitting_last n.bus v.x now v.old v.tr h.bus.txs hs1, h.bus.txEnd_eq, hlen]
+    simp only [decide_eq_false_iff_not]
+    show ¬ now < _ + ((cfg.ce 5 : Nat) : Int)
+    omega
+  -- the other station has heard the request completely
+  have hidle : v.idle = true := by
+    cases hi : v.idle with
+    | true => rfl
+    | false =>
+      exfalso
+      rw [hi] at hY
+      simp only [Bool.false_eq_true, if_false] at hY
+      have hlt := hY.2.2.1
+      have hfull := cvis_full cfg v.tr (n.bus.seen.getD (oth v.x) 0) (by rw [hlen]; decide)
+        (by rw [hlen]; show _ + ((cfg.ce 5 : Nat) : Int) ≤ _; omega)
+      omega
+  rw [hidle] at hY
+  simp only [if_true] at hY
+  obtain ⟨⟨np, coll, hyst⟩, hyrx, hypb, hyl, hly1, hly2⟩ := hY
+  obtain ⟨c, hp, hinvc, o1, o2, o4, o5, o6, htx, hring, hst', hlast⟩ := await_poll_timeout v.sx.s now _ g
+    h.okx.inv h.okx.son hst hlx (by rw [h.okx.slot]; exact hex) (by rw [h.okx.b33, h.okx.slot]; omega)
+  rw [h.okx.addr, h.okx.ns] at htx hring hst'
+  have hring' : c.s.ring = v.sx.s.ring := by rw [hring, h.okx.fix]
+  have hst'' : c.s.st = .checkTokenPass .first := by
+    rw [hst', h.okx.fix, h.okx.ns, if_neg (Ne.symm h.okx.ne)]
+  have hend : n.bus.txEnd v.tr ≤ now := by
+    rw [h.bus.txEnd_eq, hlen]; show _ + ((cfg.ce 5 : Nat) : Int) ≤ _; omega
+  have hsync : n.bus.txEnd v.tr + (cfg.b33 : Nat) < now := by
+    rw [h.bus.txEnd_eq, hlen]; show _ + ((cfg.ce 5 : Nat) : Int) + _ < _; omega
+  have hvis0 : ∀ (b : Bytes), cvis cfg { start := now, sender := v.x, bytes := b, dropped := false }
+      (n.bus.seen.getD (oth v.x) 0) = 0 := by
+    intro b
+    apply cvis_zero
+    simp only
+    have := h.tly
+    omega
+  have htto := h.oky.tto
+  obtain ⟨n', old', hn', hinv'⟩ := rinv_send_x h hok now e.tl (Int.le_of_lt e.own) c _ .pass hd
+    (by rw [hphy]; exact hp) htx o4 hring' (o5.trans h.okx.son) (o6.trans h.pbx) o1 hend
+    (.inr (by rw [h.bus.txEnd_eq, hlen]; show _ + ((cfg.ce 5 : Nat) : Int) ≤ _; omega))
+    (by
+      intro old'
+      unfold PhaseOk View.sendX upSt
+      simp only
+      refine ⟨trivial, trivial, hst'', ?_, Int.le_refl _, ?_⟩
+      · rw [hlast, bits_11_3, h.okx.bits]; rfl
+      · unfold YRecv
+        simp only [hvis0, hidle, if_true, List.take_zero]
+        refine ⟨hyrx, hypb, by rw [tokenBytes_length]; decide, hyl, .inr hly2, ⟨np, coll, hyst⟩, by omega⟩)
+  refine ⟨n', _, [], c, hn', hinv', rfl, fun j _ => rfl, .inr ⟨_, htx, ?_, hsync, rfl, .inr ⟨?_, ?_⟩⟩⟩
+  · unfold View.nextTx; rw [hph]
+  · rw [adr_x, adr_y v h.x2]
+  · unfold View.nextTx View.sendX; rfl
+
 end PV
